@@ -337,6 +337,28 @@ def run(rep, tier, rng):
                     rep.failures.append(C.Failure("tree:%s:rejected" % name, "%s: a value exactly at its limit (%s) is rejected: %s" % (cls.__name__, name, out[1]), desc))
                 if out[0] == "ok":
                     check_instance(out[1], "tree:" + name, desc)
+    # the classes whose groom renames a child (wire tag <-> attribute name): the renamed child present and repeated (watched: fixed finding)
+    for r in ctx.d["raw"]:
+        if not r.get("rename") or r["name"] not in ctx.byname:
+            continue
+        wire_tag, py_tag = r["rename"]
+        cls = ctx.byname[r["name"]]
+        obj = H.gen_instance(ctx, cls, rng, depth=1, full=0.5, force=py_tag.lower())
+        if obj is None or obj.__dict__.get(py_tag.lower()) is None:
+            continue
+        tree = obj.to_etree()
+        idx = [k for k, ch in enumerate(tree) if ch.tag == wire_tag]
+        if not idx:
+            continue
+        for gap in (0, 1):
+            m = copy.deepcopy(tree); m.insert(min(idx[0] + 1 + gap, len(m)), copy.deepcopy(m[idx[0]]))
+            c, out, _ = H.case_from(ctx, m); items.append(c)
+            desc = {"route": "tree", "cls": cls.__name__, "mutation": "duplicate-renamed-child", "xml": ET.tostring(m).decode()[:3000]}
+            meta.append(dict(desc, what="from_etree", impl_ok=(out[0] == "ok")))
+            rep.count(c, kind="tree:duplicate-renamed-child:%s" % out[0])
+            stats["duplicate-renamed-child"] = stats.get("duplicate-renamed-child", 0) + 1
+            if out[0] == "ok":
+                rep.failures.append(C.Failure("tree:duplicate-renamed-child:accepted", "%s: document with a repeated <%s> is converted instead of rejected" % (cls.__name__, wire_tag), desc))
     rep.extra["mutations_applied"] = stats
     for m in [x for x in meta if x.get("mutation") not in (None, "none")][:4]:
         rep.sample(m)
